@@ -118,6 +118,15 @@ impl<'repo> ExecuteContext<'repo> {
     pub(crate) fn execute(self, reflog_msg: &str) -> Result<Stack<'repo>> {
         let transaction = self.0;
 
+        // A stack opened with `InitializationPolicy::AllowUninitialized` has no stack
+        // state to transact on.
+        if !transaction.stack.is_initialized() {
+            return Err(anyhow!(
+                "StGit stack not initialized for branch `{}`",
+                transaction.stack.get_branch_name(),
+            ));
+        }
+
         // Check consistency
         for (patchname, oid) in &transaction.updated_patches {
             if oid.is_none() {
